@@ -35,7 +35,7 @@ import (
 const shimPath = "github.com/zeromicro/go-zero/verifshim/vsched"
 
 var selMap = map[string]map[string]string{
-	"sync":        {"Mutex": "Mutex", "RWMutex": "RWMutex", "WaitGroup": "WaitGroup", "Once": "Once", "Cond": "Cond", "NewCond": "NewCond"},
+	"sync":        {"Mutex": "Mutex", "RWMutex": "RWMutex", "WaitGroup": "WaitGroup", "Once": "Once", "Cond": "Cond", "NewCond": "NewCond", "Pool": "Pool"},
 	"sync/atomic": {"*": "Atomic"}, // atomic.X -> vsched.AtomicX
 	"time": {"Now": "TimeNow", "Since": "TimeSince", "Until": "TimeUntil", "Sleep": "TimeSleep", "After": "TimeAfter",
 		"AfterFunc": "TimeAfterFunc", "Tick": "TimeTick", "NewTimer": "NewTimer", "NewTicker": "NewTicker", "Timer": "Timer", "Ticker": "Ticker"},
